@@ -16,6 +16,10 @@ Inductive scase :=
        (g_subs : list (bytes * bytes * bool))   (* every ChanSubscribe / ChanQueueSubscribe in order: subject, queue ([] = ChanSubscribe), rejected by the connection *)
        (g_resets : list payload)                (* system.reset payloads in order: start, then one per extra ResetAll / reconnect *)
        (g_extra : N)                            (* number of ResetAll / reconnect triggers after start *)
+       (g_script : list N)                      (* operations performed while serving: 0 ResetAll, 1 reconnect, 2 disconnect *)
+       (g_trace : list svc_event)               (* while serving, in order: system.reset publishes and OnReconnect / OnDisconnect callback calls *)
+       (g_off : list N)                         (* the same operations performed while NOT started (before Serve, after Shutdown) *)
+       (g_off_trace : list svc_event)           (* what they caused *)
        (g_other : N)                            (* publishes on other subjects / undecodable payloads *)
   (* differential of the NATS semantics against an embedded nats-server *)
   | NC (sub subj : bytes) (srv_valid_sub : bool) (delivered : N).
@@ -73,18 +77,49 @@ Definition cfg_of (name : bytes) (res acc : option (list bytes)) (l : layout) (q
 Definition expected_resets (c : config) (n : nat) : list payload :=
   flat_map (fun i => match reset_nth c (served_ownership c) i with Some p => [p] | None => [] end) (seq 0 (S n)).
 
+Definition ev_eq (a b : svc_event) : bool :=
+  match a, b with
+  | EReset p, EReset q => payload_eq p q
+  | ERefused, ERefused | EOnReconnect, EOnReconnect | EOnDisconnect, EOnDisconnect => true
+  | _, _ => false
+  end.
+Fixpoint trace_eq (a b : list svc_event) : bool :=
+  match a, b with
+  | [], [] => true
+  | x :: a', y :: b' => ev_eq x y && trace_eq a' b'
+  | _, _ => false
+  end.
+
+(* the shape the property prescribes: a reconnect is one system.reset (when anything is owned)
+   followed by the OnReconnect callback, a disconnect is the OnDisconnect callback and no publish; a
+   service that is not started publishes nothing.  1 reset, 2 OnReconnect, 3 OnDisconnect *)
+Definition ev_shape (e : svc_event) : list N :=
+  match e with EReset _ => [1] | ERefused => [] | EOnReconnect => [2] | EOnDisconnect => [3] end.
+Definition op_shape (serving : bool) (op : N) : list N :=
+  let r := if serving then [1] else [] in
+  if op =? 0 then r else if op =? 1 then r ++ [2] else [3].
+Fixpoint nlist_eq (a b : list N) : bool :=
+  match a, b with
+  | [], [] => true
+  | x :: a', y :: b' => (x =? y) && nlist_eq a' b'
+  | _, _ => false
+  end.
+
 (* field codes: 1 Serve outcome  2 subscribe calls (multiset of subject, queue)  3 rejected flags
-   4 reset payloads  5 unexpected publishes  6 nats validity (server)  7 nats delivery (server) *)
+   4 reset payloads  5 unexpected publishes  6 nats validity (server)  7 nats delivery (server)
+   8 ordered trace of resets and OnReconnect / OnDisconnect callbacks (while serving and while not started) *)
 Definition check_case (k : scase) : list N :=
   match k with
-  | SC name res acc l queue g_err g_subs g_resets g_extra g_other =>
+  | SC name res acc l queue g_err g_subs g_resets g_extra g_script g_trace g_off g_off_trace g_other =>
     let c := cfg_of name res acc l queue in
+    (if trace_eq (script_events c None g_off) g_off_trace then [] else [8]) ++
     match subscribe c with
     | NoResources =>
       (if g_err =? 1 then [] else [1]) ++
       (if is_nil g_subs then [] else [2]) ++
       (if is_nil g_resets then [] else [4]) ++
-      (if g_other =? 0 then [] else [5])
+      (if g_other =? 0 then [] else [5]) ++
+      (if is_nil g_trace then [] else [8])
     | Subscribed calls =>
       let (exp, failed) := until_bad calls in
       (if g_err =? (if failed then 2 else 0) then [] else [1]) ++
@@ -92,7 +127,12 @@ Definition check_case (k : scase) : list N :=
       (if forallb (fun x => Bool.eqb (snd x) (bad_subject (fst (fst x)))) g_subs then [] else [3]) ++
       (if payloads_eq (if failed then [] else expected_resets c (N.to_nat g_extra)) g_resets
        then [] else [4]) ++
-      (if g_other =? 0 then [] else [5])
+      (if g_other =? 0 then [] else [5]) ++
+      (if failed then (if is_nil g_trace then [] else [8])
+       else if trace_eq (reset_all_events c (Some (served_ownership c)) ++
+                         script_events c (Some (served_ownership c)) g_script) g_trace
+            && (g_extra =? N.of_nat (length (filter (fun op => op <? 2) g_script)))
+       then [] else [8])
     end
   | NC sub subj srv_valid delivered =>
     (* the server accepts a wildcard character inside a longer token as a literal; the specification
@@ -175,10 +215,13 @@ Definition payload_exact (res acc : list bytes) (p : payload) : bool :=
    4 a system.reset payload differs from the owned lists (or is missing / superfluous)
    5 the queue group of a subscription is not the configured one
    6 a request subject matched by exactly one entry of the pre-elimination pattern list is matched by
-     a number of recorded subscriptions other than one *)
+     a number of recorded subscriptions other than one
+   7 callbacks / resets out of shape: a reconnect is not exactly one system.reset followed by one
+     OnReconnect call, a disconnect not exactly one OnDisconnect call without publish, or a service
+     that is not started published a reset *)
 Definition viol_case (k : scase) : list N :=
   match k with
-  | SC name res acc l queue g_err g_subs g_resets g_extra g_other =>
+  | SC name res acc l queue g_err g_subs g_resets g_extra g_script g_trace g_off g_off_trace g_other =>
     let c := cfg_of name res acc l queue in
     if negb (cfg_ok c) then [] else
     (* "for the handler kinds actually registered": some registered handler has the kind *)
@@ -194,7 +237,11 @@ Definition viol_case (k : scase) : list N :=
      then (if Nat.eqb (length g_resets) (S (N.to_nat g_extra)) && forallb (payload_exact ores oacc) g_resets then [] else [4])
      else (if is_nil g_resets then [] else [4])) ++
     (if forallb (fun x => beq (snd (fst x)) queue) g_subs then [] else [5]) ++
-    (if serving && not_once recorded ores oacc then [6] else [])
+    (if serving && not_once recorded ores oacc then [6] else []) ++
+    (if nlist_eq (flat_map ev_shape g_trace)
+                 (if serving then [1] ++ flat_map (op_shape true) g_script else []) &&
+        nlist_eq (flat_map ev_shape g_off_trace) (flat_map (op_shape false) g_off)
+     then [] else [7])
   | NC _ _ _ _ => []
   end.
 
